@@ -18,9 +18,11 @@
 package tcc
 
 import (
+	"bytes"
 	"context"
 	"encoding/json"
 	"fmt"
+	"strconv"
 	"sync"
 
 	"seata.apache.org/seata-go/pkg/constant"
@@ -152,11 +154,13 @@ func (t *TCCResourceManager) getBusinessActionContext(xid string, branchID int64
 	actionContextMap := make(map[string]interface{}, 2)
 	if len(applicationData) > 0 {
 		var tccContext map[string]interface{}
-		if err := json.Unmarshal(applicationData, &tccContext); err != nil {
+		decoder := json.NewDecoder(bytes.NewReader(applicationData))
+		decoder.UseNumber()
+		if err := decoder.Decode(&tccContext); err != nil {
 			panic("application data failed to unmarshl as json")
 		}
 		if v, ok := tccContext[constant.ActionContext]; ok {
-			actionContextMap = v.(map[string]interface{})
+			actionContextMap = exactNumbers(v).(map[string]interface{})
 		}
 	}
 
@@ -166,6 +170,38 @@ func (t *TCCResourceManager) getBusinessActionContext(xid string, branchID int64
 		ActionName:    resourceID,
 		ActionContext: actionContextMap,
 	}
+}
+
+// exactNumbers gives the numbers of a decoded JSON document the Go values encoding/json gives them, float64,
+// except for integers a float64 cannot carry: those become int64 (uint64), so that the action context the
+// commit and rollback methods see is the one that was captured at prepare - through float64 an id such as
+// 9007199254740993 came back as 9007199254740992.
+func exactNumbers(v interface{}) interface{} {
+	switch x := v.(type) {
+	case map[string]interface{}:
+		for k, e := range x {
+			x[k] = exactNumbers(e)
+		}
+		return x
+	case []interface{}:
+		for i, e := range x {
+			x[i] = exactNumbers(e)
+		}
+		return x
+	case json.Number:
+		if i, err := x.Int64(); err == nil {
+			if f := float64(i); int64(f) == i && f < 9.2e18 && f > -9.2e18 {
+				return f
+			}
+			return i
+		}
+		if u, err := strconv.ParseUint(x.String(), 10, 64); err == nil {
+			return u
+		}
+		f, _ := x.Float64()
+		return f
+	}
+	return v
 }
 
 // Rollback a branch transaction
